@@ -45,13 +45,19 @@ CASES = [
  ("C19", "basic/random.py", "        if n < 0 or n > N:\n            n = N", "        if not (0 <= n <= N):\n            n = N", "keep"),
  ("C19", "stochastic/_ranker.py", "        if n < 0 or n > N:\n            n = N", "        if not (0 < n <= N):\n            n = N", "break"),
 ]
-import py2lean_np, py2lean_scatter, py2lean_imp
+import py2lean_np, py2lean_scatter, py2lean_imp, py2lean_holdout
 # other per-run translators: (generated file, obligations module, generator, its Unsupported)
-OTHER = {"C08imp": ("ImpC08.lean", "LK.Proofs.ImpC08", py2lean_imp.translate, py2lean_imp.Unsupported),
+OTHER = {"C05ho": ("HoldoutC05.lean", "LK.Proofs.HoldoutC05", py2lean_holdout.generate, py2lean_holdout.Unsupported),
+         "C08imp": ("ImpC08.lean", "LK.Proofs.ImpC08", py2lean_imp.translate, py2lean_imp.Unsupported),
          "C06np": ("NpC06.lean", "LK.Proofs.NpC06", py2lean_np.translate_dcg, py2lean_np.Unsupported),
          "C08np": ("NpC08.lean", "LK.Proofs.NpC08", py2lean_np.translate_learn, py2lean_np.Unsupported),
          "C04sc": ("ScatterC04.lean", "LK.Proofs.ScatterC04", py2lean_scatter.generate, py2lean_scatter.Unsupported)}
 CASES += [
+ ("C05ho", "splitting/holdout.py", "        return items[ordered[len(ordered) - self.n :]]", "        return items[ordered[-self.n :]]", "break"),
+ ("C05ho", "splitting/holdout.py", "        ordered = np.argsort(col)\n        return items[ordered[len(ordered) - self.n :]]", "        order = np.argsort(col)\n        return items[order[len(order) - self.n :]]", "keep"),
+ ("C05ho", "splitting/holdout.py", "        if len(items) <= self.n:\n            return items\n\n        col", "        if len(items) < self.n:\n            return items\n\n        col", "break"),
+ ("C05ho", "splitting/holdout.py", "        return items[ordered[len(ordered) - n :]]", "        return items[ordered[len(ordered) - n - 1 :]]", "break"),
+ ("C05ho", "splitting/holdout.py", "        if len(items) <= self.n:\n            return items\n\n        sel", "        if len(items) < self.n:\n            return items\n\n        sel", "break"),
  ("C08imp", "basic/bias.py", "                    uoff[r_mask] -= self.item_biases[r_idxes[r_mask]]", "                    uoff -= self.item_biases[r_idxes]", "break"),
  ("C08imp", "basic/bias.py", "            if ratings is not None:\n                assert user_items is not None", "            if ratings is not None and user_id is None:\n                assert user_items is not None", "break"),
  ("C08imp", "basic/bias.py", "            scores[mask] += self.item_biases[idxes[mask]]", "            scores[mask] -= self.item_biases[idxes[mask]]", "break"),
